@@ -67,7 +67,7 @@ def run_tsan(pid, tier, seed, cfg, env_for, known, excludes, BUILD, REPO, rdir):
         wseed = (seed * 6151 + w * 15485863 + 29) % (2**31 - 1) or 1
         statf = "%s/w%d.json" % (outdir, w)
         cmd = ["%s/tsan/vfprop" % BUILD, "run", pid, "--cases", str(tc["cases"]), "--size", str(tc.get("size", 70)), "--seed", str(wseed),
-               "--out", statf, "--replays", rdir, "--max-shrinks", "60"]
+               "--out", statf, "--replays", rdir, "--max-shrinks", "12"]       # free-running cases: shrinking is slow (real time) and not deterministic
         if excludes:
             cmd += ["--exclude", ",".join(excludes)]
         lf = open("%s/w%d.log" % (outdir, w), "w")
